@@ -2,7 +2,8 @@
 
 Correspondence for AntismashResults.write_to_file and dump_records under injected conversion faults (every
 event position: the four per-record conversions, every module's to_json, every custom-object conversion
-inside json.dumps, missing results, non-ModuleResults values) with a pre-existing target file; for
+inside json.dumps, missing results, non-ModuleResults values; the values vary in type, truthiness, shape of
+what to_json returns and kind of unencodable content, see RULE) with a pre-existing target file; for
 prepare_output_directory on real temporary directories (entry classes x run mode x where the log file lives x
 current directory); and for the order of main._run_antismash (real function, real prepare_output_directory
 and write_to_file, recorded collaborators with injected stage faults)."""
@@ -132,8 +133,93 @@ class Opaque:
     late = 2
 
 
+# values orjson cannot encode and _base_convertor has no conversion for (late code 2), picked by the payload value
+UNENCODABLE = [Opaque, lambda: {1, 2}, lambda: b"bytes", lambda: 2 ** 70, lambda: 1j, lambda: {(1, 2): 3}]
+
+
 def late_object(hooks, code, i, j, val, late):
-    return Opaque() if late == 2 else Custom(hooks, code, i, j, val, late)
+    if late == 2:
+        return UNENCODABLE[val % len(UNENCODABLE)]()
+    return Custom(hooks, code, i, j, val, late)
+
+
+def find_late(value):
+    """ the late code of the non-standard object somewhere inside a returned payload (0 = none) """
+    if isinstance(value, (Custom, Opaque)):
+        return value.late
+    if isinstance(value, (set, bytes, complex)) or (isinstance(value, int) and abs(value) >= 2 ** 63):
+        return 2
+    if isinstance(value, dict):
+        if any(not isinstance(key, str) for key in value):
+            return 2
+        return max([find_late(v) for v in value.values()], default=0)
+    if isinstance(value, (list, tuple)):
+        return max([find_late(v) for v in value], default=0)
+    return 0
+
+
+def find_text_late(value):
+    """ the value a successfully converted custom object left in the text (-1 = there was none) """
+    if isinstance(value, dict):
+        if list(value) == ["late"]:
+            return value["late"]
+        return max([find_text_late(v) for v in value.values()], default=-1)
+    if isinstance(value, list):
+        return max([find_text_late(v) for v in value], default=-1)
+    return -1
+
+
+def shape_of(value):
+    """ (shape code, visible payload value) of what a module's to_json returned / of what the text holds for it;
+        99 = none of the shapes the fault modules return """
+    if value is None:
+        return 1, 0
+    if isinstance(value, bool):
+        return 99, 0
+    if isinstance(value, int):
+        return 3, value
+    if isinstance(value, str):
+        return (4, int(value[1:])) if value[:1] == "s" and value[1:].isdigit() else (99, 0)
+    if isinstance(value, list):
+        return (2, value[0]) if value and isinstance(value[0], int) else (99, 0)
+    if isinstance(value, dict):
+        if not value:
+            return 7, 0
+        if not isinstance(value.get("v"), int):
+            return 99, 0
+        if "n" in value:
+            return 5, value["v"]
+        if "t" in value:
+            return 6, value["v"]
+        return 0, value["v"]
+    return 99, 0
+
+
+def payload(shape, val, obj):
+    """ what to_json returns: the payload value and (when there is one) the object json.dumps will meet """
+    extra = [obj] if obj is not None else []
+    if shape == 1:
+        return None
+    if shape == 2:
+        return [val] + extra
+    if shape == 3:
+        return val
+    if shape == 4:
+        return f"s{val}"
+    if shape == 5:
+        return {"v": val, "n": {"x": [{"y": extra}, 1.5, None, "text"]}}
+    if shape == 6:
+        return {"v": val, "t": tuple(extra)}
+    if shape == 7:
+        return {}
+    data = {"v": val}
+    if extra:
+        data["c"] = obj
+    return data
+
+
+HAS_SLOT = (0, 2, 5, 6)       # shapes that can hold an object
+TRUTHY, FALSY = (0, 1, 4, 8), (2, 3, 7)     # ms_truth codes of custom objects
 
 
 _classes = {}
@@ -185,22 +271,71 @@ def classes():
             self._step(4, self._c20[2][3])
             return super().get_gc_content()
 
-    class FaultModule(ModuleResults):
-        def __init__(self, hooks, i, j, spec):
-            super().__init__(f"r{i}")
-            self.hooks, self.i, self.j, self.spec = hooks, i, j, spec
+    from antismash.modules.tta.tta import TTAResults
 
+    class Armed:
+        """ what every generated results object carries """
+        def arm(self, hooks, i, j, spec):
+            self.hooks, self.i, self.j, self.spec = hooks, i, j, spec
+            return self
+
+    class FaultMixin(Armed):
         def to_json(self):
-            _kind, fault, val, late = self.spec
+            _kind, fault, val, late, _truth, shape, _tfault = self.spec
             self.hooks.event(5, self.i, self.j)
             if fault:
                 raise EXC[fault]("injected fault")
-            data = {"v": val}
-            if late:
-                data["c"] = late_object(self.hooks, 6, self.i, self.j, val, late)
-            return data
+            obj = late_object(self.hooks, 6, self.i, self.j, val, late) if late else None
+            return payload(shape, val, obj)
 
-    _classes.update(Record=FaultRecord, Module=FaultModule)
+    def truth_fault(self):
+        raise EXC[self.spec[6]]("injected fault while evaluating truthiness")
+
+    def truth_attrs(truth, faulty):
+        """ the special methods that give bool(obj) the behaviour coded by ms_truth """
+        if faulty:
+            return {"__len__" if truth in (1, 2, 7, 8) else "__bool__": truth_fault}
+        return {1: {"__len__": lambda self: 3}, 2: {"__len__": lambda self: 0},
+                3: {"__bool__": lambda self: False},
+                4: {"__bool__": lambda self: True, "__len__": lambda self: 0}}.get(truth, {})
+
+    def module_class(kind, truth, faulty):
+        """ kind 2: a subclass of ModuleResults (truth 7 / 8: of the real TTAResults, whose __len__ counts its
+            features); kind 7: a look-alike with a to_json method that is no ModuleResults; kind 8: no to_json """
+        key = ("class", kind, truth, faulty)
+        if key not in _classes:
+            if kind == 2:
+                bases = (FaultMixin, TTAResults if truth in (7, 8) else ModuleResults)
+            else:
+                bases = (FaultMixin,) if kind == 7 else (Armed,)
+            _classes[key] = type(f"Results_k{kind}_t{truth}{'_raising' if faulty else ''}", bases,
+                                 truth_attrs(truth, faulty))
+        return _classes[key]
+
+    def make_value(hooks, i, j, spec):
+        """ the value stored in the record's results dictionary """
+        kind, _fault, val, _late, truth, _shape, tfault = spec
+        falsy = truth in FALSY or truth == 5
+        if kind == 0:
+            return None
+        if kind == 2:
+            cls = module_class(2, truth, bool(tfault))
+            if truth in (7, 8):
+                obj = cls(f"r{i}", 0.7, 0.65)
+                if truth == 8:
+                    obj.features.append(object())
+            else:
+                obj = cls(f"r{i}")
+            return obj.arm(hooks, i, j, spec)
+        if kind in (7, 8):
+            return module_class(kind, truth if truth in (1, 2, 3, 4) else 0, bool(tfault))().arm(hooks, i, j, spec)
+        if kind == 11:
+            return module_class(2, 0, False)        # the class itself instead of an instance
+        builtin = {1: ({}, {"v": val}), 3: ([], [val]), 4: ("", "results"), 5: (0, val + 1), 6: (False, True),
+                   9: ((), (val,)), 10: (0.0, 1.5)}
+        return builtin.get(kind, builtin[1])[0 if falsy else 1]   # e.g. JSON of a previous run, never regenerated
+
+    _classes.update(Record=FaultRecord, make_value=make_value)
     return _classes
 
 
@@ -227,7 +362,7 @@ def parse_text(text, top_level):
             mods = rec["modules"]
             out.append(len(mods))
             for key, mod in mods.items():
-                out += [int(key[1:]), mod["v"], mod["c"]["late"] if "c" in mod else -1]
+                out += [int(key[1:])] + list(shape_of(mod)) + [find_text_late(mod)]
         return out
     except Exception:  # pylint: disable=broad-except
         return [4]
@@ -240,7 +375,7 @@ def enc_returned(data):
         mods = rec["modules"]
         out.append(len(mods))
         for key, mod in mods.items():
-            out += [int(key[1:]), mod["v"], mod["c"].late if "c" in mod else 0]
+            out += [int(key[1:])] + list(shape_of(mod)) + [find_late(mod)]
     return out
 
 
@@ -259,12 +394,7 @@ def build_objects(hooks, records, results):
     for i, mods in enumerate(results):
         entry = {}
         for j, spec in enumerate(mods):
-            if spec[0] == 0:
-                entry[f"m{j}"] = None
-            elif spec[0] == 2:
-                entry[f"m{j}"] = cls["Module"](hooks, i, j, spec)
-            else:
-                entry[f"m{j}"] = {"v": spec[2]}     # e.g. JSON of a previous run that was never regenerated
+            entry[f"m{j}"] = cls["make_value"](hooks, i, j, spec)
         res.append(entry)
     return recs, res
 
@@ -339,7 +469,8 @@ def enc_write_input(hk, tl, records, results):
 
 def positions(records, results):
     """ all fault positions of a fault-free plan: ('r', i, k) record step k, ('m', i, j) to_json,
-        ('l', i, j) late conversion, ('k', i, j) wrong type, ('t',) timings, ('s',) results too short """
+        ('l', i, j) late conversion, ('k', i, j) wrong type, ('b', i, j) truthiness raising, ('t',) timings,
+        ('s',) results too short """
     pos = [("t",)]
     if records:
         pos.append(("s",))
@@ -347,40 +478,86 @@ def positions(records, results):
         pos += [("r", i, k) for k in range(4)]
         for j, spec in enumerate(results[i]):
             if spec[0] == 2:
-                pos += [("m", i, j), ("l", i, j)]
+                pos += [("m", i, j), ("l", i, j), ("b", i, j)]
             pos.append(("k", i, j))
     return pos
 
 
-def apply_fault(records, results, tl, pos, kind, rng):
+INVALID_KINDS = [1, 3, 4, 5, 6, 7, 8, 9, 10, 11]     # values that are neither None nor a ModuleResults
+BUILTIN_KINDS = (1, 3, 4, 5, 6, 9, 10)
+LATE_FAULTS = [2, 2, 3, 4, 5, 6]
+
+
+def with_truth(spec, falsy, rng):
+    """ the module spec with a truthiness of the wanted polarity that its kind can have """
+    spec = list(spec)
+    kind = spec[0]
+    if kind in BUILTIN_KINDS:
+        spec[4] = 5 if falsy else 6
+    elif kind == 11 or kind == 0:
+        spec[4] = 0 if kind == 11 else 5
+    elif kind == 2:
+        spec[4] = rng.choice(FALSY if falsy else TRUTHY)
+    else:
+        spec[4] = rng.choice((2, 3) if falsy else (0, 1, 4))
+    return spec
+
+
+def apply_fault(records, results, tl, pos, kind, rng, falsy=None, variant=None):
+    """ falsy: make the value at the fault position falsy (True), truthy (False) or either (None);
+        variant: the late code / the invalid kind / the truthiness code to use (None = random) """
     records = [list(r) for r in records]
     results = [[list(m) for m in mods] for mods in results]
+    if falsy is None:
+        falsy = rng.random() < 0.5
     if pos[0] == "t":
         tl = rng.choice([2, 3, 4, 5, 6])
     elif pos[0] == "s":
         results = results[:rng.randrange(len(records))]
     elif pos[0] == "r":
         records[pos[1]][pos[2]] = kind
-    elif pos[0] == "m":
-        results[pos[1]][pos[2]][1] = kind
-    elif pos[0] == "l":
-        results[pos[1]][pos[2]][3] = rng.choice([2, 2, 3, 4, 5, 6])
     else:
-        results[pos[1]][pos[2]][0] = 1
+        spec = results[pos[1]][pos[2]]
+        if pos[0] == "m":
+            spec[1] = kind
+        elif pos[0] == "l":
+            spec[3] = variant if variant is not None else rng.choice(LATE_FAULTS)
+            if spec[5] not in HAS_SLOT:
+                spec[5] = rng.choice(HAS_SLOT)
+        elif pos[0] == "b":
+            spec[6] = kind
+            spec[4] = variant if variant is not None else rng.choice([0, 1, 2, 3, 7])
+        else:
+            spec[0] = variant if variant is not None else rng.choice(INVALID_KINDS)
+            if spec[0] in BUILTIN_KINDS or spec[0] == 11:
+                spec[6] = 0          # bool() of a builtin value cannot raise
+        if pos[0] != "b":
+            spec = with_truth(spec, falsy, rng)
+        results[pos[1]][pos[2]] = spec
     return [tuple(r) for r in records], [[tuple(m) for m in mods] for mods in results], tl
 
 
-def clean_plan(rng, nrec, nmods):
+def clean_module(rng, kind=None, plain=False):
+    """ a module result that converts: kind 0 (None) or 2, any truthiness, any shape of returned value """
+    if kind is None:
+        kind = 0 if rng.random() < 0.15 else 2
+    if kind == 0:
+        return (0, 0, 0, 0, 5, 0, 0)
+    shape = 0 if plain or rng.random() < 0.6 else rng.randrange(8)
+    late = rng.choice([0, 0, 0, 1]) if shape in HAS_SLOT else 0
+    truth = 0 if plain else rng.choice([0, 0, 0, 1, 2, 3, 4, 7, 8])
+    return (2, 0, rng.randrange(1000), late, truth, shape, 0)
+
+
+def clean_plan(rng, nrec, nmods, plain=False):
     records = [(0, 0, 0, 0, int(rng.random() < 0.3)) for _ in range(nrec)]
     results = []
-    for i in range(nrec):
-        mods = []
-        for _ in range(nmods if nmods is not None else rng.choice([0, 1, 1, 2, 2, 3, 4])):
-            kind = 0 if rng.random() < 0.15 else 2
-            mods.append((kind, 0, rng.randrange(1000), rng.choice([0, 0, 0, 1])))
-        results.append(mods)
-    if rng.random() < 0.1:
-        results.append([(2, rng.choice([0, 1]), 7, rng.choice([0, 2]))])      # surplus results are never looked at
+    for _ in range(nrec):
+        count = nmods if nmods is not None else rng.choice([0, 1, 1, 2, 2, 3, 4])
+        results.append([clean_module(rng, 2 if nmods is not None else None, plain) for _ in range(count)])
+    if nmods is None and rng.random() < 0.1:
+        # surplus results are never looked at
+        results.append([(2, rng.choice([0, 1]), 7, rng.choice([0, 2]), rng.choice([0, 2]), 0, rng.choice([0, 0, 1]))])
     return records, results
 
 
@@ -388,22 +565,65 @@ def gen_write_cases(chk, budget):
     """ (fn, hk, tl, records, results) """
     rng = chk.rng
     out = []
-    # systematic: every position of every grid up to the tier's bound, every fault kind
+    # systematic: every position of every grid up to the tier's bound, every fault kind; every fault of a module
+    # value with a truthy AND with every kind of falsy value (a failing result stays a failing result when it is
+    # empty); every falsy but convertible result with every shape of returned value (it must be written)
     max_rec, max_mod = (2, 3) if chk.tier == "quick" else (3, 4)
     kinds = FAULT_KINDS[:4] if chk.tier == "quick" else FAULT_KINDS
+    n_falsy = 0
     for nrec in range(0, max_rec + 1):
         for nmod in range(0, max_mod + 1):
-            records, results = clean_plan(rng, nrec, nmod)
-            results = results[:nrec]
-            results = [[(2, 0, m[2], m[3]) for m in mods] for mods in results]
+            records, results = clean_plan(rng, nrec, nmod, plain=True)
             for fn in (1, 2):
                 out.append((fn, 0, 0, records, results))
                 out.append((fn, 5, 0, records, results))        # I/O failure after truncation, no conversion fault
                 for pos in positions(records, results):
-                    for kind in (kinds if pos[0] in "rm" else kinds[:1]):
-                        plan = apply_fault(records, results, 0, pos, kind, rng)
+                    if pos[0] in "ts":
+                        plan = apply_fault(records, results, 0, pos, kinds[0], rng)
                         out.append((fn, 0, plan[2], plan[0], plan[1]))
+                        continue
+                    if pos[0] == "r":
+                        for kind in kinds:
+                            plan = apply_fault(records, results, 0, pos, kind, rng)
+                            out.append((fn, 0, plan[2], plan[0], plan[1]))
+                        continue
+                    i, j = pos[1], pos[2]
+                    variants = {"m": [None], "l": sorted(set(LATE_FAULTS)), "k": INVALID_KINDS,
+                                "b": [0, 1, 2, 3, 4, 7, 8]}[pos[0]]
+                    for variant in variants:
+                        for kind in (kinds if pos[0] == "m" else [rng.choice(kinds)]):
+                            for truth in ([None] if pos[0] == "b" else [0, 1, 4, 8, 2, 3, 7]):
+                                plan = apply_fault(records, results, 0, pos, kind, rng, falsy=False, variant=variant)
+                                spec = list(plan[1][i][j])
+                                if truth is not None:
+                                    if spec[0] == 11:
+                                        if truth:
+                                            continue
+                                    elif spec[0] in BUILTIN_KINDS:
+                                        if truth not in (0, 2):
+                                            continue
+                                        spec[4] = 5 if truth else 6
+                                    elif spec[0] != 2 and truth in (7, 8):
+                                        continue
+                                    else:
+                                        spec[4] = truth
+                                    if pos[0] == "l":
+                                        spec[5] = rng.choice(HAS_SLOT)
+                                        spec[2] = rng.randrange(1000)      # picks the kind of unencodable value
+                                plan[1][i][j] = tuple(spec)
+                                n_falsy += spec[4] in FALSY or spec[4] == 5
+                                out.append((fn, rng.choice([0, 0, 0, 2]), plan[2], plan[0], plan[1]))
+                    if pos[0] == "m":
+                        # no fault at all: a falsy / truthy result, every shape of returned value
+                        for truth in FALSY + TRUTHY:
+                            for shape in range(8):
+                                late = rng.choice([0, 1]) if shape in HAS_SLOT else 0
+                                mods = [list(mods) for mods in results]
+                                mods[i][j] = (2, 0, rng.randrange(1000), late, truth, shape, 0)
+                                n_falsy += truth in FALSY
+                                out.append((fn, rng.choice([0, 0, 2, 4] if fn == 2 else [0, 0, 2]), 0, records, mods))
     chk.count("write_systematic_cases", len(out))
+    chk.count("write_systematic_cases_with_a_falsy_value_at_the_position", n_falsy)
     while len(out) < budget:
         fn = rng.choice([1, 1, 2])
         nrec = rng.choice([0, 1, 1, 2, 2, 3, 3, 4, 5])
@@ -419,6 +639,14 @@ def gen_write_cases(chk, budget):
     return out
 
 
+RESULTS_LEGEND = ("results [kind 0 None / 2 ModuleResults subclass / 1 dict 3 list 4 str 5 int 6 bool 7 look-alike with "
+                  "to_json 8 plain object 9 tuple 10 float 11 the class itself, to_json fault, value, object met by "
+                  "json.dumps (2 = unencodable, 3.. = its to_json raises), truthiness (0 plain object, 1 __len__>0, "
+                  "2 __len__==0, 3 __bool__ False, 4 __bool__ True with __len__==0, 5 empty builtin, 6 non-empty "
+                  "builtin, 7 real TTAResults without features, 8 with a feature), shape returned by to_json (0 dict, "
+                  "1 None, 2 list, 3 int, 4 str, 5 nested three deep, 6 tuple inside, 7 {}), fault of bool(value)]")
+
+
 def describe_write(fn, hk, tl, records, results):
     return {"function": {1: "AntismashResults.write_to_file", 2: "dump_records"}[fn],
             "handle": {0: "path of an existing file", 1: "path of a new file", 2: "open file-like object",
@@ -426,7 +654,7 @@ def describe_write(fn, hk, tl, records, results):
                        5: "path of an existing file; open succeeds, write raises OSError (no space left)"}[hk],
             "timings_object": tl,
             "records [fault to_biopython, record_to_json, gather_record_areas, get_gc_content, original_id]": records,
-            "results [kind 0 None/2 ModuleResults/1 other, to_json fault, value, object met by json.dumps]": results}
+            RESULTS_LEGEND: results}
 
 
 # ------------------------------------------------------------------ part 2: prepare_output_directory
@@ -783,8 +1011,11 @@ def pipeline_options():
     return _pipeline["options"]
 
 
-def impl_pipeline(plan, kind, reuse, dmeta, classes_, logspec, cwdspec, records, results, base, specs=None):
-    """ the real main._run_antismash on a real directory with patched collaborators """
+def impl_pipeline(plan, kind, reuse, dmeta, classes_, logspec, cwdspec, records, results, base, specs=None,
+                  outer=None):
+    """ the real main._run_antismash on a real directory with patched collaborators; outer: a dictionary that
+        makes the call go through main.run_antismash (the wrapper that sets up logging first) and receives
+        the snapshot of the directory tree taken just before the call """
     from antismash import main
     from antismash.common import serialiser
     from antismash.config import update_config
@@ -823,7 +1054,11 @@ def impl_pipeline(plan, kind, reuse, dmeta, classes_, logspec, cwdspec, records,
         logging.disable(logging.NOTSET)
         try:
             with PipelinePatches(plan, hooks, results_obj):
-                code = main._run_antismash(None if reuse else "/data/in.gbk", options)  # pylint: disable=protected-access
+                if outer is not None:
+                    outer["before"] = tree_snapshot(os.path.dirname(json_path))
+                    code = main.run_antismash(None if reuse else "/data/in.gbk", options)
+                else:
+                    code = main._run_antismash(None if reuse else "/data/in.gbk", options)  # pylint: disable=protected-access
             out = [0, code]
         except Exception as exc:  # pylint: disable=broad-except
             out = [1, local_err_code(exc)]
@@ -839,6 +1074,79 @@ def impl_pipeline(plan, kind, reuse, dmeta, classes_, logspec, cwdspec, records,
                                                    action=action, json_name=JSON_NAME)
     payload = enc_plan(plan) + flat + enc_write_input(0, 0, records, results)[2:]
     return payload, out, observed, info
+
+
+def tree_snapshot(path):
+    """ relative path -> digest of every file / "dir" for every directory below path ({} when it is missing) """
+    snap = {}
+    if not os.path.isdir(path):
+        return snap
+    for root, dirs, files in os.walk(path):
+        for name in dirs:
+            snap[os.path.relpath(os.path.join(root, name), path)] = "dir"
+        for name in files:
+            with open(os.path.join(root, name), "rb") as handle:
+                snap[os.path.relpath(os.path.join(root, name), path)] = hashlib.md5(handle.read()).hexdigest()
+    return snap
+
+
+OUTER_CLASS = "logfile_written_into_refused_directory"       # FC20d
+
+
+def outer_run_probe(chk, known, base):
+    """ main.run_antismash, the wrapper around _run_antismash that sets up logging FIRST (logs.changed_logging
+        creates the directory of the log file and opens the file), on existing directories with foreign content and
+        a fresh input: the run must be refused and the directory tree must be what it was, except that a log file
+        that was already there may have grown.  Independent oracle (tree snapshots before / after); not modelled
+        in Coq.  A violation whose only difference is the newly created log file belongs to finding class
+        logfile_written_into_refused_directory """
+    rng = chk.rng
+    records, results = clean_plan(rng, 1, 1)
+    plan = clean_pipeline_plan(rng, 1)
+    reported = False
+    for classes_ in (["file"], ["file", "dir"], ["input_dir", "gbk"], ["hidden", "dir"], ["json", "region", "dir"],
+                     ["log", "file"], ["log", "dir", "gbk"]):
+        # the log file: none / inside the directory, not there yet / inside, already there (an entry of class "log":
+        # it may grow) / in a sub-directory / outside
+        for logspec in (None, ("inside", "absent.log", 0), ("inside", "absent.log", 3), ("sub", "absent.log", 0),
+                        ("sub", "absent.log", 1), ("inside", "run.log", 0), ("parent", "run.log", 0),
+                        ("logs", "run.log", 0)):
+            outer = {}
+            _payload, out, _observed, info = impl_pipeline(plan, 1, False, False, classes_, logspec, "default",
+                                                           records, results, base, outer=outer)
+            outdir = os.path.join(base, "out")
+            before, after = outer.get("before", {}), tree_snapshot(outdir)
+            logfile = info["config.logfile"]
+            logrel = os.path.relpath(os.path.abspath(logfile), outdir) if logfile else None
+            added = sorted(set(after) - set(before))
+            removed = sorted(set(before) - set(after))
+            changed = sorted(k for k in before if k in after and before[k] != after[k] and k != logrel)
+            refused = out[:2] == [1, E_INPUT]
+            foreign = [k for k in before if os.sep not in k and k != logrel and not (k == "input" and before[k] == "dir")]
+            if not foreign:
+                chk.count("outer_run_cases_nothing_foreign")        # e.g. the only file is named as the log file
+                continue
+            chk.count("outer_run_cases")
+            if refused and not added and not removed and not changed:
+                continue
+            witness = {"function": "run_antismash (wrapper: logs.changed_logging, then _run_antismash)",
+                       "output directory before": sorted(before), "config.logfile": logfile,
+                       "input": "/data/in.gbk (fresh run)", "outcome": out[:2], "entries added": added,
+                       "entries removed": removed, "entries changed": changed}
+            if refused and added == [logrel] and not removed and not changed and OUTER_CLASS in known:
+                chk.count("known_finding_" + OUTER_CLASS)
+                if not reported:
+                    reported = True
+                    chk.known(known[OUTER_CLASS]["what_fails"])
+                continue
+            chk.count("property_violations")
+            chk.violation("counterexample", "a refused run left the existing output directory changed (run_antismash"
+                          + (", finding class " + OUTER_CLASS + " not listed as known"
+                             if refused and added == [logrel] and not removed and not changed else "") + ")",
+                          {"theorem_or_correspondence": "C20 second clause on the observed directory tree "
+                                                        "(harness oracle, outer run_antismash)",
+                           "input": witness, "implementation": out})
+            return
 
 
 def enc_plan(plan):
@@ -891,7 +1199,6 @@ def gen_pipeline_cases(chk, budget):
     # run must stop at prepare_output_directory) and the current-directory witness under every stage fault
     for kind, reuse, dmeta, classes_, logspec, cwdspec in PIPELINE_CORPUS:
         records, results = clean_plan(rng, 2, 2)
-        results = [[(2, 0, m[2], m[3]) for m in mods] for mods in results[:2]]
         base_plan = clean_pipeline_plan(rng, 2)
         base_plan["recs"] = [(0, 0, 1, 0), (0, 0, 0, 0)]
         cases.append((base_plan, kind, reuse, dmeta, classes_, logspec, cwdspec, records, results))
@@ -904,7 +1211,6 @@ def gen_pipeline_cases(chk, budget):
     # systematic: every stage fault, verify_options failing, every conversion position, on every scenario
     for scenario in DIR_SCENARIOS:
         records, results = clean_plan(rng, 2, 2)
-        results = [[(2, 0, m[2], m[3]) for m in mods] for mods in results[:2]]
         base_plan = clean_pipeline_plan(rng, 2)
         base_plan["recs"] = [(0, 0, 1, 0), (0, 0, 0, 0)]
         cases.append((base_plan,) + scenario + ("default", records, results))
@@ -962,12 +1268,22 @@ def gen_pipeline_cases(chk, budget):
 
 # ------------------------------------------------------------------ the run
 
-RULE = ("write_to_file / dump_records: fault plans over 0-5 records x 0-4 results per record (None / ModuleResults / "
-        "other object), a pre-existing target file with known bytes (or a new path, an open handle, a path in a missing "
+RULE = ("write_to_file / dump_records: fault plans over 0-5 records x 0-4 results per record; every value varies in "
+        "type (None / subclass of ModuleResults / dict, list, str, int, bool, tuple, float, an object with a to_json "
+        "method that is no ModuleResults, a plain object, the class itself), in truthiness (plain object / __len__ > 0 / "
+        "__len__ == 0 / __bool__ False / __bool__ True with __len__ == 0 / empty or non-empty builtin / a subclass of "
+        "the real TTAResults without or with features / bool(value) raising), in what to_json does (raises one of 8 "
+        "exception kinds; returns a dict, None, a list, a number, a string, {}, a value nested three containers deep, "
+        "a tuple) and in what json.dumps meets inside the returned value (nothing, a convertible object, an object "
+        "whose to_json raises, or something unencodable: object without to_json, set, bytes, 2**70, complex, dict "
+        "with a tuple key); a pre-existing target file with known bytes (or a new path, an open handle, a path in a missing "
         "directory, handle=None, or a path whose open succeeds and whose write raises OSError); systematic part = every "
         "conversion position (to_biopython, record_to_json, gather_record_areas, get_gc_content, each to_json, each "
-        "custom object met by json.dumps, timings, results shorter than records, non-ModuleResults value) of every grid "
-        "up to 2x3 (quick) / 3x4 (thorough) with every exception kind; random part = 0, 1 or several faults; "
+        "custom object met by json.dumps, timings, results shorter than records, non-ModuleResults value, raising "
+        "truthiness) of every grid up to 2x3 (quick) / 3x4 (thorough) with every exception kind, every module fault "
+        "combined with every truthiness (truthy and falsy), every invalid type empty and non-empty, and every falsy "
+        "but convertible result with every shape of returned value (it must be written); random part = 0, 1 or "
+        "several faults; "
         "prepare_output_directory: real temporary directories, first the witnesses of the repaired defects FC20a/b/c "
         "(regression corpus), then the matrix of every entry class alone and paired with input "
         "dir / log file / region file / hidden file, both modes, plain and glob-pattern directory names; log file "
@@ -976,7 +1292,9 @@ RULE = ("write_to_file / dump_records: fault plans over 0-5 records x 0-4 result
         "directory = an entry of the output directory / the output directory / its parent, output directory given "
         "absolute or relative; plus random listings of 0-6 entries; _run_antismash: the real function on real "
         "directories with recorded collaborators, the regression corpus, 13 directory scenarios x every stage fault / verify_options failing / "
-        "every conversion position, plus random plans; non-trivial = a write case with at least one record and at least "
+        "every conversion position (truthy or falsy value at the position), plus random plans; run_antismash (the "
+        "wrapper that sets up logging first): 7 directories with foreign content x 8 log file placements, tree "
+        "snapshots before / after (harness oracle, finding class logfile_written_into_refused_directory); non-trivial = a write case with at least one record and at least "
         "one fault or a successful write, a directory case with at least one entry, every pipeline case; distinct by "
         "flat encoding")
 
@@ -1046,7 +1364,7 @@ def run(chk):
                                "reuse (--reuse-results)": reuse,
                                "records [fault to_biopython, record_to_json, gather_record_areas, get_gc_content, "
                                "original_id]": records,
-                               "results [kind, to_json fault, value, object met by json.dumps]": results}, **info))
+                               RESULTS_LEGEND: results}, **info))
             chk.count("run_antismash")
             chk.count("pipeline_outcome_" + ("return_%d" % out[1] if out[0] == 0 else
                                              "error_" + {E_INPUT: "AntismashInputError"}.get(
@@ -1054,6 +1372,7 @@ def run(chk):
             chk.count("pipeline_events", observed[observed[2] + 4])
             chk.count("pipeline_json_state_after_%d" % observed[observed[2] + 3])
             chk.note_case(flat, True, {"input": descr[-1], "implementation": out})
+        outer_run_probe(chk, known, base)
     finally:
         shutil.rmtree(workdir, ignore_errors=True)
     model_outs = common.correspondence(chk, cases, impl_outs,
@@ -1084,6 +1403,20 @@ def run(chk):
 
 def replay(chk, path):
     doc = json.load(open(path))
+    if "flat" not in doc:
+        # a violation found by the harness oracle on the outer run_antismash: run that probe again
+        known = {f["class"]: f for f in common.load_known_findings("C20") if f.get("status") == "known"}
+        workdir = tempfile.mkdtemp(prefix="asv_c20_")
+        try:
+            base = os.path.join(workdir, "dirs")
+            os.mkdir(base)
+            outer_run_probe(chk, known, base)
+        finally:
+            shutil.rmtree(workdir, ignore_errors=True)
+        for kind, what, info in chk.violations:
+            print(kind, what, json.dumps(info.get("input"), indent=1))
+        print("recorded:", json.dumps(doc.get("input"), indent=1))
+        return 1 if chk.violations else 0
     flat = doc["flat"]
     print("model:", common.run_driver([flat])[0], "recorded implementation:", doc.get("implementation"))
     fn, payload = flat[1], flat[2:]
@@ -1100,8 +1433,8 @@ def replay(chk, path):
             for _ in range(nres):
                 nmod = payload[pos]
                 pos += 1
-                results.append([tuple(payload[pos + 4 * j: pos + 4 * j + 4]) for j in range(nmod)])
-                pos += 4 * nmod
+                results.append([tuple(payload[pos + 7 * j: pos + 7 * j + 7]) for j in range(nmod)])
+                pos += 7 * nmod
             out, observed = impl_write(fn, hk, tl, records, results, workdir)
             verdict = common.run_driver([[PROP, fn + 10] + payload + observed])[0]
             print("implementation now:", out, "spec verdict:", verdict)
@@ -1147,8 +1480,8 @@ def replay(chk, path):
             for _ in range(nres):
                 nmod = rest[pos]
                 pos += 1
-                results.append([tuple(rest[pos + 4 * j: pos + 4 * j + 4]) for j in range(nmod)])
-                pos += 4 * nmod
+                results.append([tuple(rest[pos + 7 * j: pos + 7 * j + 7]) for j in range(nmod)])
+                pos += 7 * nmod
             payload2, out, observed, info = impl_pipeline(plan, kind, bool(reuse), bool(dmeta), None, logspec, cwdspec,
                                                           records, results, base, specs=specs)
             model = common.run_driver([[PROP, 4] + payload2])[0]
